@@ -81,10 +81,34 @@ def exc_code(e):
     return cc.exn_code(e)
 
 
+def track_sequence(drv):
+    """wrap the driver's sequence generator in a (real) generator that remembers the last count drawn; the
+    harness never looks inside pycomm3's generator"""
+    box = {"last": None}
+    inner = drv._sequence
+
+    def tracked():
+        for v in inner:
+            box["last"] = v
+            yield v
+    drv._sequence = tracked()
+    drv._seq_box = box
+
+
 def seq_state(drv):
-    """the variable of the driver's `cycle` generator BEFORE its next iteration (Gen/SeqGen.v cycle_step)"""
-    fl = drv._sequence.gi_frame.f_locals
-    return fl["val"] + 1 if "val" in fl else fl["start"]
+    """the model's view of the generator (Gen/SeqGen.v cycle_step): its counter before the next iteration =
+    the last count drawn + 1.  Before the first draw one count is drawn (and dropped) to synchronise."""
+    if drv._seq_box["last"] is None:
+        next(drv._sequence)
+    return drv._seq_box["last"] + 1
+
+
+def open_tracked(cls, path, tp, **kw):
+    import target as T
+    drv = T.open_driver(cls, path, tp, open=False, **kw)
+    track_sequence(drv)
+    drv.open()
+    return drv
 
 
 def spec_port_segment(port, link):
@@ -607,9 +631,9 @@ def open_scenario(env, rng, kind, driver="CIP", cfg=None):
         path = HOST + ("/" + render_hops(rng, hops) if hops else "")
     scen = {"name": f"{driver}:{kind}", "driver": driver, "path": path, "hops": hops, "cfg": {k: (v.hex() if isinstance(v, bytes) else v) for k, v in (cfg or {}).items()}}
     if driver == "Logix":
-        drv = T.open_driver(LogixDriver, path, env.tp, init_tags=False, init_program_tags=False)
+        drv = open_tracked(LogixDriver, path, env.tp, init_tags=False, init_program_tags=False)
     else:
-        drv = T.open_driver(CIPDriver, path, env.tp)
+        drv = open_tracked(CIPDriver, path, env.tp)
         warm = drv.generic_message(service=0x4B, class_code=0x300, instance=1, request_data=b"w")
         if not warm:
             raise RuntimeError(f"scenario {scen}: the connection did not open: {warm}")
@@ -626,8 +650,8 @@ def reopen(scen, env):
     if cfg:
         env.tp.cfg(**cfg)
     if scen["driver"] == "Logix":
-        return T.open_driver(LogixDriver, scen["path"], env.tp, init_tags=False, init_program_tags=False)
-    drv = T.open_driver(CIPDriver, scen["path"], env.tp)
+        return open_tracked(LogixDriver, scen["path"], env.tp, init_tags=False, init_program_tags=False)
+    drv = open_tracked(CIPDriver, scen["path"], env.tp)
     drv.generic_message(service=0x4B, class_code=0x300, instance=1, request_data=b"w")
     return drv
 
